@@ -1401,7 +1401,7 @@ def c06(ctx):
     laws = ctx.tlc("SettingsLaws.tla", "SettingsLaws.cfg", workers=4, timeout=900)
     if laws["violated"] or not laws["ok"]:
         raise Broken("SettingsLaws: %s" % laws["violated"])
-    cmds = ["hset 0 0 0"]
+    cmds = ["obj 0 0 0", "hset 0 0 0"]
     n = 0
     for m in E:
         sets = gen.valid_settings(m, rng, full=not quick) + gen.grammar_boundaries(m, rng)
